@@ -191,12 +191,14 @@ func BuildQuerySQL(db *gorm.DB) {
 
 							{
 								onStmt := gorm.Statement{Table: tableAliasName, DB: db, Clauses: map[string]clause.Clause{}}
-								for _, c := range relation.FieldSchema.QueryClauses {
-									onStmt.AddClause(c)
-								}
-
+								// conditions of the caller first: query clauses (e.g. the soft delete filter) have to
+								// restrict them as a whole and regroup them if they are combined with OR
 								if join.On != nil {
 									onStmt.AddClause(join.On)
+								}
+
+								for _, c := range relation.FieldSchema.QueryClauses {
+									onStmt.AddClause(c)
 								}
 
 								if cs, ok := onStmt.Clauses["WHERE"]; ok {
